@@ -116,6 +116,11 @@ impl Rng {
         }
         v
     }
+    /// between lo and hi random bytes
+    pub fn bytes_in(&mut self, lo: u64, hi: u64) -> Vec<u8> {
+        let n = self.range(lo, hi) as usize;
+        self.bytes(n)
+    }
     pub fn id20(&mut self) -> [u8; 20] {
         let b = self.bytes(20);
         let mut a = [0u8; 20];
